@@ -3,7 +3,8 @@ diagnostics (C10) -> coq/Gen/ConstsC10.v.
 
 Extracted from the working tree (fail-closed, values only):
   * c_dscore.c : tolerance of the qsort comparator, smallest accepted `eps`,
-    the two thresholds and three values of the mapping F -> u;
+    the numerator of the size-scaled tolerance, the two centres and the three
+    values of the mapping F -> u;
   * metrics.py : the cap of `cst`, the constants of the PIT count formula, the
     divisor applied to scipy's percentileofscore, the constants of the
     Cramer-von Mises statistic and of D = (r+1)/2, the default tie tolerance
@@ -282,15 +283,23 @@ def render(repo):
     if not m:
         raise BrokenTie(f"{DSCORE_C}: c_ensrank: `if(eps<number)` not found")
     both("DS_EPS_MIN", _num(m.group(1), DSCORE_C), "smallest accepted tie tolerance")
-    m = re.search(rf"u\s*=\s*F\s*<\s*({NUM})\s*-\s*({NUM})\s*\?\s*({NUM})\s*:\s*F\s*>\s*({NUM})\s*\+\s*({NUM})"
+    # tol = <number>/ncold/ncold;  u = F<a-tol ? c : F>d+tol ? f : g;
+    m = re.search(rf"\btol\s*=\s*({NUM})\s*/\s*ncold\s*/\s*ncold\s*;", body)
+    if not m:
+        raise BrokenTie(f"{DSCORE_C}: c_ensrank: the tolerance of the mapping F -> u is not "
+                        "`tol = <number>/ncold/ncold;` (scaled to the ensemble size)")
+    tolnum = _num(m.group(1), DSCORE_C)
+    m = re.search(rf"u\s*=\s*F\s*<\s*({NUM})\s*-\s*tol\s*\?\s*({NUM})\s*:\s*F\s*>\s*({NUM})\s*\+\s*tol"
                   rf"\s*\?\s*({NUM})\s*:\s*({NUM})\s*;", body)
     if not m:
         raise BrokenTie(f"{DSCORE_C}: c_ensrank: the mapping F -> u is not "
-                        "`u = F<a-b ? c : F>d+e ? f : g;`")
+                        "`u = F<a-tol ? c : F>d+tol ? f : g;`")
+    if not re.search(r"\bncold\s*=\s*\(\s*double\s*\)\s*ncol\s*;", body):
+        raise BrokenTie(f"{DSCORE_C}: c_ensrank: `ncold = (double) ncol;` not found")
     g = [_num(x, DSCORE_C) for x in m.groups()]
-    w("(* u = F < LO_C - LO_TOL ? U_LOW : F > HI_C + HI_TOL ? U_HIGH : U_TIE *)")
-    for nm, v in zip(["DS_U_LO_C", "DS_U_LO_TOL", "DS_U_LOW", "DS_U_HI_C", "DS_U_HI_TOL",
-                      "DS_U_HIGH", "DS_U_TIE"], g):
+    w("(* tol = U_TOL_NUM/ncold/ncold; u = F < LO_C - tol ? U_LOW : F > HI_C + tol ? U_HIGH : U_TIE *)")
+    both("DS_U_TOL_NUM", tolnum)
+    for nm, v in zip(["DS_U_LO_C", "DS_U_LOW", "DS_U_HI_C", "DS_U_HIGH", "DS_U_TIE"], g):
         both(nm, v)
     for nm in ("ESIZE", "EVALUE"):
         v = c_define(repo, DSCORE_H, nm)
